@@ -1136,3 +1136,64 @@ MUTANTS += [
  dict(id='F66-benign-end-wait-has-files-form', props=['C03', 'C02'], expect='SILENT',
       edits=[(MS, '\tif totalFiles == 0 {\n\t\tselect {\n\t\tcase <-ackDone:', '\tif !(totalFiles > 0) {\n\t\tselect {\n\t\tcase <-ackDone:')]),
 ]
+
+# --- round 8 (DESIGN 8.16) ---
+MUTANTS += [
+ dict(id='R8-benign-flush-write-helper', props=['C05', 'C04', 'C01', 'C02', 'C06', 'C18', 'C19'], expect='SILENT',
+      edits=[(SC, '\tif s == nil || !s.dirty {\n\t\treturn nil\n\t}\n\tif err := os.MkdirAll(filepath.Dir(s.Path), 0755); err != nil {',
+                  '\tif s == nil || !s.dirty {\n\t\treturn nil\n\t}\n\tif err := s.write(s.bitmap.Marshal()); err != nil {\n\t\treturn err\n\t}\n\ts.dirty = false\n\treturn nil\n}\n\nfunc (s *Sidecar) write(bitmap []byte) error {\n\tif err := os.MkdirAll(filepath.Dir(s.Path), 0755); err != nil {'),
+             (SC, '\tbitmap := s.bitmap.Marshal()\n\tif err := binary.Write(buf, binary.BigEndian, uint32(len(bitmap))); err != nil {', '\tif err := binary.Write(buf, binary.BigEndian, uint32(len(bitmap))); err != nil {'),
+             (SC, '\tif err := os.Rename(temp, s.Path); err != nil {\n\t\treturn err\n\t}\n\ts.dirty = false\n\treturn nil\n}', '\treturn os.Rename(temp, s.Path)\n}')]),
+]
+MUTANTS += [
+ dict(id='R8-needend-also-nothing-missing', props=['C01'], expect='whenever-skipped',
+      edits=[(MS, '\t\t\tstate.needEnd = skipped > 0\n', '\t\t\tstate.needEnd = skipped > 0 && totalChunks > skipped\n')]),
+ dict(id='R8-benign-needend-geq-one', props=['C01', 'C06', 'C17'], expect='SILENT',
+      edits=[(MS, '\t\t\tstate.needEnd = skipped > 0\n', '\t\t\tstate.needEnd = skipped >= 1\n')]),
+ dict(id='R8-benign-needend-or-more', props=['C01', 'C06', 'C17'], expect='SILENT',
+      edits=[(MS, '\t\t\tstate.needEnd = skipped > 0\n', '\t\t\tresumed := skipped > 0\n\t\t\tstate.needEnd = resumed || state.remaining == 0\n')]),
+ dict(id='R8-flush-unlocks-before-write', props=['C05', 'C04'], expect='R-FLUSH-SERIAL/flush-serial/',
+      edits=[(SC, '\ts.mu.Lock()\n\tdefer s.mu.Unlock()\n\tif s == nil || !s.dirty {\n\t\treturn nil\n\t}\n\tif err := os.MkdirAll(', '\ts.mu.Lock()\n\tif s == nil || !s.dirty {\n\t\ts.mu.Unlock()\n\t\treturn nil\n\t}\n\ts.mu.Unlock()\n\tif err := os.MkdirAll(')]),
+ dict(id='R8-benign-registry-flush-error-logged', props=['C05', 'C04'], expect='SILENT',
+      edits=[(MS, '\t\t\t_ = state.sidecar.Flush()\n\t\t\tglobalSidecarFlushRegistry.remove(state.sidecar)\n', '\t\t\tif err := state.sidecar.Flush(); err != nil {\n\t\t\t\tlogger := opts.ProgressFn\n\t\t\t\t_ = logger\n\t\t\t}\n\t\t\tglobalSidecarFlushRegistry.remove(state.sidecar)\n')]),
+ dict(id='R8-registry-break-on-failed-flush', props=['C05'], expect='registry-balanced/transfer.RecvManifestMultiStream/every',
+      edits=[(MS, '\t\t\t_ = state.sidecar.Flush()\n\t\t\tglobalSidecarFlushRegistry.remove(state.sidecar)\n', '\t\t\tif err := state.sidecar.Flush(); err != nil {\n\t\t\t\tbreak\n\t\t\t}\n\t\t\tglobalSidecarFlushRegistry.remove(state.sidecar)\n')]),
+ dict(id='R8-report-count-below-highest-refused', props=['C04'], expect='R-REPORT-ACCEPTED/report-accepted/',
+      edits=[(MS, '\t\t\t\t\tverifiedChunk := info.LastVerifiedChunk\n\t\t\t\t\tif verifiedChunk < totalChunks {\n\t\t\t\t\t\tforceSendFrom = verifiedChunk + 1', '\t\t\t\t\tverifiedChunk := info.LastVerifiedChunk\n\t\t\t\t\tif completedChunks <= verifiedChunk && verifiedChunk < totalChunks {\n\t\t\t\t\t\treturn fmt.Errorf("resume info for %s has gaps", state.item.RelPath)\n\t\t\t\t\t}\n\t\t\t\t\tif verifiedChunk < totalChunks {\n\t\t\t\t\t\tforceSendFrom = verifiedChunk + 1')]),
+ dict(id='R8-benign-report-count-upper-bound', props=['C04'], expect='SILENT',
+      edits=[(MS, '\t\t\t\t\tverifiedChunk := info.LastVerifiedChunk\n\t\t\t\t\tif verifiedChunk < totalChunks {\n\t\t\t\t\t\tforceSendFrom = verifiedChunk + 1', '\t\t\t\t\tverifiedChunk := info.LastVerifiedChunk\n\t\t\t\t\tif completedChunks > totalChunks {\n\t\t\t\t\t\treturn fmt.Errorf("resume info for %s marks more chunks than the file has", state.item.RelPath)\n\t\t\t\t\t}\n\t\t\t\t\tif verifiedChunk < totalChunks {\n\t\t\t\t\t\tforceSendFrom = verifiedChunk + 1')]),
+ dict(id='R8-marked-chunk-refused', props=['C04', 'C06'], expect='R-REPEAT-ACCEPTED/repeat-accepted/',
+      edits=[(MS, '\t\t\t\t\tdataErrCh <- err\n\t\t\t\t\treturn\n\t\t\t\t}\n\t\t\t\tbufPool := chunkPoolFor(state.chunkSize)\n\t\t\t\tif bufPool == nil {\n\t\t\t\t\tbufPool = bufpool.New(int(state.chunkSize))\n\t\t\t\t}\n\t\t\t\tbuf := bufPool.Get()\n\t\t\t\tif int(chunkLen) > len(buf) {',
+                  '\t\t\t\t\tdataErrCh <- err\n\t\t\t\t\treturn\n\t\t\t\t}\n\t\t\t\tif state.sidecar != nil && state.sidecar.IsComplete(chunkIndex) {\n\t\t\t\t\terr := fmt.Errorf("chunk %d of %s came twice", chunkIndex, state.item.RelPath)\n\t\t\t\t\tfinalizeFile(state, false, err.Error())\n\t\t\t\t\tdataErrCh <- err\n\t\t\t\t\treturn\n\t\t\t\t}\n\t\t\t\tbufPool := chunkPoolFor(state.chunkSize)\n\t\t\t\tif bufPool == nil {\n\t\t\t\t\tbufPool = bufpool.New(int(state.chunkSize))\n\t\t\t\t}\n\t\t\t\tbuf := bufPool.Get()\n\t\t\t\tif int(chunkLen) > len(buf) {')]),
+ dict(id='R8-benign-marked-chunk-noted', props=['C04', 'C06'], expect='SILENT',
+      edits=[(MS, '\t\t\t\t\tdataErrCh <- err\n\t\t\t\t\treturn\n\t\t\t\t}\n\t\t\t\tbufPool := chunkPoolFor(state.chunkSize)\n\t\t\t\tif bufPool == nil {\n\t\t\t\t\tbufPool = bufpool.New(int(state.chunkSize))\n\t\t\t\t}\n\t\t\t\tbuf := bufPool.Get()\n\t\t\t\tif int(chunkLen) > len(buf) {',
+                  '\t\t\t\t\tdataErrCh <- err\n\t\t\t\t\treturn\n\t\t\t\t}\n\t\t\t\trepeated := state.sidecar != nil && state.sidecar.IsComplete(chunkIndex)\n\t\t\t\t_ = repeated\n\t\t\t\tbufPool := chunkPoolFor(state.chunkSize)\n\t\t\t\tif bufPool == nil {\n\t\t\t\t\tbufPool = bufpool.New(int(state.chunkSize))\n\t\t\t\t}\n\t\t\t\tbuf := bufPool.Get()\n\t\t\t\tif int(chunkLen) > len(buf) {')]),
+ dict(id='R8-giveup-bare-number', props=['C09'], expect='R-GIVEUP-NOT-SHORTER/giveup/',
+      edits=[(SR, '\t\t\t\tgiveUp = time.After(10 * time.Second)\n', '\t\t\t\tgiveUp = time.After(10)\n')]),
+ dict(id='R8-giveup-half-the-auth-timeout', props=['C09'], expect='R-GIVEUP-NOT-SHORTER/giveup/timer',
+      edits=[(SR, '\t\t\t\tgiveUp = time.After(10 * time.Second)\n', '\t\t\t\tgiveUp = time.After(5 * time.Second)\n')]),
+ dict(id='R8-benign-giveup-longer', props=['C09', 'C08'], expect='SILENT',
+      edits=[(SR, '\t\t\t\tgiveUp = time.After(10 * time.Second)\n', '\t\t\t\tgiveUp = time.After(15 * time.Second)\n')]),
+ dict(id='R8-benign-overrate-break-only', props=['C10', 'C14'], expect='SILENT',
+      edits=[(SRV, '\t\t\tlogger.Warn("websocket message rate limit exceeded", "peer_id", peerID)\n\t\t\tconn.Close()\n\t\t\tbreak\n', '\t\t\tlogger.Warn("websocket message rate limit exceeded", "peer_id", peerID)\n\t\t\tbreak\n')]),
+ dict(id='R8-overrate-goto-next-frame', props=['C10'], expect='R-OVERRATE-CLOSES/overrate-closes/',
+      edits=[(SRV, '\t\tif limits.msgRatePerSec > 0 && !msgLimiter.Allow() {\n\t\t\tlogger.Warn("websocket message rate limit exceeded", "peer_id", peerID)\n\t\t\tconn.Close()\n\t\t\tbreak\n\t\t}\n', '\t\tif limits.msgRatePerSec <= 0 || msgLimiter.Allow() {\n\t\t} else {\n\t\t\tlogger.Warn("websocket message rate limit exceeded", "peer_id", peerID)\n\t\t\tcontinue\n\t\t}\n')]),
+ dict(id='R8-benign-closefn-logs', props=['C11', 'C10'], expect='SILENT',
+      edits=[(SRV, 'removePeer, admitted := hub.AddIf(sess.ID, peer, sendFunc, func() { _ = conn.Close() }, admit)', 'closePeer := func() {\n\t\tlogger.Info("closing connection on the hub\'s behalf", "peer_id", peerID)\n\t\t_ = conn.Close()\n\t}\n\tremovePeer, admitted := hub.AddIf(sess.ID, peer, sendFunc, closePeer, admit)')]),
+ dict(id='R8-benign-closefn-close-frame-unlocked', props=['C11', 'C10'], expect='SILENT',
+      edits=[(SRV, 'removePeer, admitted := hub.AddIf(sess.ID, peer, sendFunc, func() { _ = conn.Close() }, admit)', 'closePeer := func() {\n\t\t_ = conn.WriteControl(websocket.CloseMessage, websocket.FormatCloseMessage(websocket.CloseGoingAway, "closed by server"), time.Now().Add(time.Second))\n\t\t_ = conn.Close()\n\t}\n\tremovePeer, admitted := hub.AddIf(sess.ID, peer, sendFunc, closePeer, admit)')]),
+ dict(id='R8-closefn-through-sendfunc', props=['C11'], expect='R-CLOSEFN-NONBLOCKING/closefn/',
+      edits=[(SRV, 'removePeer, admitted := hub.AddIf(sess.ID, peer, sendFunc, func() { _ = conn.Close() }, admit)', 'closePeer := func() {\n\t\tbye, _ := protocol.NewEnvelope(protocol.TypePeerLeft, protocol.NewMsgID(), protocol.PeerLeft{PeerID: peerID})\n\t\t_ = sendFunc(bye)\n\t\t_ = conn.Close()\n\t}\n\tremovePeer, admitted := hub.AddIf(sess.ID, peer, sendFunc, closePeer, admit)')]),
+ dict(id='R8-failed-only-when-not-deadline', props=['C12'], expect='R-SLOTS/release/runTransfer/settled',
+      edits=[(SS, '\t\tif err == nil {\n\t\t\tstate.Status = ReceiverStatusDone\n\t\t} else {\n\t\t\tstate.Status = ReceiverStatusFailed\n', '\t\tif err == nil {\n\t\t\tstate.Status = ReceiverStatusDone\n\t\t} else if err != context.DeadlineExceeded {\n\t\t\tstate.Status = ReceiverStatusFailed\n')]),
+ dict(id='R8-benign-ping-floor-half-millisecond', props=['C16'], expect='SILENT',
+      edits=[(SRV, '\t\tif pingEvery < time.Millisecond {\n\t\t\tpingEvery = time.Millisecond\n\t\t}\n', '\t\tif pingEvery < 500*time.Microsecond {\n\t\t\tpingEvery = 500 * time.Microsecond\n\t\t}\n')]),
+ dict(id='R8-ping-floor-hundred-milliseconds', props=['C16'], expect='/floor#1',
+      edits=[(SRV, '\t\tif pingEvery < time.Millisecond {\n\t\t\tpingEvery = time.Millisecond\n\t\t}\n', '\t\tif pingEvery < 100*time.Millisecond {\n\t\t\tpingEvery = 100 * time.Millisecond\n\t\t}\n')]),
+ dict(id='R8-benign-discard-scratch-fixed-size', props=['C15'], expect='SILENT',
+      edits=[(MS, 'func discardWithTimeout(ctx context.Context, s Stream, n int64, scratch []byte) error {\n', 'func discardWithTimeout(ctx context.Context, s Stream, n int64, scratch []byte) error {\n\tif len(scratch) < 4096 {\n\t\tscratch = make([]byte, 4096)\n\t}\n')]),
+ dict(id='R8-discard-scratch-min-of-wire', props=['C15'], expect='R-ALLOC/alloc/transfer.discardWithTimeout',
+      edits=[(MS, 'func discardWithTimeout(ctx context.Context, s Stream, n int64, scratch []byte) error {\n', 'func discardWithTimeout(ctx context.Context, s Stream, n int64, scratch []byte) error {\n\tif want := n / 2; int64(len(scratch)) < want {\n\t\tscratch = make([]byte, want)\n\t}\n')]),
+ dict(id='R8-filedone-length-refused-by-reader-only', props=['C18'], expect='R-CODEC/record/controlTypeFileDone/domain',
+      edits=[(CP, '\tif errLen > 0 {\n\t\terrMsg := make([]byte, errLen)', '\tif errLen > 0 {\n\t\tif errLen > 32768 {\n\t\t\treturn msg, fmt.Errorf("err msg too long: %d", errLen)\n\t\t}\n\t\terrMsg := make([]byte, errLen)')]),
+]
